@@ -104,6 +104,11 @@ def gen_cases(ctx, rnd):
         vals = atoms if not quick else rnd.sample(atoms, 45)
         for v in vals:
             cases.append(dict(d=d, v=v))
+    # the switch copy of every fast leaf (validate_trait_complex) against the lattice: Either(leaf, Enum("zz"))
+    for d in pv.fast_leaves(True):
+        vals = atoms if not quick else [["PNone"]] + rnd.sample(atoms, 28)
+        for v in vals:
+            cases.append(dict(d=["DCompound", [d, ["DEnum", [pv.S("zz")]]]], v=v))
     # float ranges: every bound/mask combination against every float-like atom and the bounds themselves
     floaty = [a for a in atoms if a[0] in ("PFloat", "PFloatSub", "PNpFloat", "PFloatObj", "PInt", "PBool", "PNpInt",
                                            "PIndexObj")]
